@@ -78,6 +78,16 @@ def fillRow (R : Nat) (live : List Mem) (pcount bcount : Mem → Option Nat) (cu
 def ensureOwnership (owners : List Mem) (m : Mem) : List Mem :=
   if owners.any (fun o => o.id == m.id) then owners else m :: owners
 
+/-- updateRouting for one partition's primary owners (routingtable.go, as repaired by aa5aa21): the table is
+    computed (`count1` = what the listed owners answered) and pushed; the members that report left-over data for
+    the partition are added to the coordinator's copy of the owners list; when that added somebody, the table is
+    computed (`count2`) and pushed once more.  Result: the owners list of the LAST push - what every member holds. -/
+def updateRoutingPart (live : List Mem) (count1 count2 : Mem → Option Nat) (coordOwners : List Mem) (ro : Mem)
+    (reporters : List Mem) : List Mem :=
+  let t1 := distributePrimary live count1 coordOwners ro
+  let c1 := reporters.foldl ensureOwnership t1
+  if c1 = t1 then t1 else distributePrimary live count2 c1 ro
+
 /-- discovery.GetCoordinator: members sorted by birthdate, the first one (members = (member, birthdate)) -/
 def oldest : List (Mem × Int) → Option (Mem × Int)
   | [] => none
